@@ -2355,7 +2355,7 @@ func parseQuotedIdentifier(s string) (string, error) {
 					return "", &invalidQuotedStringError{s}
 				}
 
-				if v[0] != '\\' && v[1] != 'u' {
+				if v[0] != '\\' || v[1] != 'u' {
 					return "", &invalidQuotedStringError{s}
 				}
 
